@@ -25,142 +25,12 @@ CHECK = '/verif/check.py'
 PROPS = ['C%02d' % i for i in range(1, 20)]
 
 
-class Renamer(ast.NodeTransformer):
-    def __init__(self, names):
-        self.names = names
-
-    def visit_Name(self, node):
-        if node.id in self.names:
-            node.id = node.id + '_q'
-        return node
-
-    def visit_FunctionDef(self, node):
-        # do not descend into nested functions with their own scope
-        if getattr(node, '_root', False):
-            self.generic_visit(node)
-        return node
-
-    visit_Lambda = lambda self, node: node
-
-
-def locals_of(fn):
-    params = {a.arg for a in fn.args.posonlyargs + fn.args.args + fn.args.kwonlyargs}
-    if fn.args.vararg:
-        params.add(fn.args.vararg.arg)
-    if fn.args.kwarg:
-        params.add(fn.args.kwarg.arg)
-    stored, nested_used = set(), set()
-    for n in ast.walk(fn):
-        if isinstance(n, (ast.FunctionDef, ast.Lambda)) and n is not fn:
-            for m in ast.walk(n):
-                if isinstance(m, ast.Name):
-                    nested_used.add(m.id)
-        if isinstance(n, ast.Name) and isinstance(n.ctx, ast.Store):
-            stored.add(n.id)
-    # comprehension variables are fine to rename as well (same function scope in walk)
-    return {x for x in stored if x not in params and x not in nested_used and x != '_'}
-
-
-class TtoTranspose(ast.NodeTransformer):
-    def visit_Attribute(self, node):
-        self.generic_visit(node)
-        if node.attr == 'T' and isinstance(node.ctx, ast.Load):
-            return ast.Call(func=ast.Attribute(value=node.value, attr='transpose', ctx=ast.Load()),
-                            args=[], keywords=[])
-        return node
-
-
-class SqrtForm(ast.NodeTransformer):
-    def visit_Call(self, node):
-        self.generic_visit(node)
-        if isinstance(node.func, ast.Attribute) and node.func.attr == 'sqrt' and \
-                isinstance(node.func.value, ast.Name) and node.func.value.id == 'np' and \
-                len(node.args) == 1:
-            return ast.BinOp(left=node.args[0], op=ast.Pow(), right=ast.Constant(0.5))
-        return node
-
-    def visit_BinOp(self, node):
-        self.generic_visit(node)
-        if isinstance(node.op, ast.Pow) and isinstance(node.right, ast.Constant) and \
-                node.right.value == 2 and isinstance(node.left, ast.Name):
-            return ast.BinOp(left=node.left, op=ast.Mult(), right=ast.Name(node.left.id, ast.Load()))
-        return node
-
-
-class IfInvert(ast.NodeTransformer):
-    def visit_If(self, node):
-        self.generic_visit(node)
-        if node.orelse and not (len(node.orelse) == 1 and isinstance(node.orelse[0], ast.If)) \
-                and not any(isinstance(x, ast.If) for x in node.body[:0]):
-            t = node.test
-            if isinstance(t, ast.UnaryOp) and isinstance(t.op, ast.Not):
-                nt = t.operand
-            else:
-                nt = ast.UnaryOp(op=ast.Not(), operand=t)
-            return ast.If(test=nt, body=node.orelse, orelse=node.body)
-        return node
-
-
-class Commute(ast.NodeTransformer):
-    """a + b -> b + a, a * b -> b * a for numeric operands (not lists, tuples, strings, shapes)"""
-    def visit_BinOp(self, node):
-        self.generic_visit(node)
-        if not isinstance(node.op, (ast.Add, ast.Mult)):
-            return node
-
-        def seq_like(e):
-            if isinstance(e, (ast.List, ast.Tuple, ast.ListComp, ast.JoinedStr, ast.Dict)):
-                return True
-            if isinstance(e, ast.Constant) and isinstance(e.value, (str, bytes)):
-                return True
-            return any(isinstance(x, ast.Attribute) and x.attr in ('shape', 'columns', 'states')
-                       for x in ast.walk(e)) or \
-                any(isinstance(x, ast.Name) and x.id.isupper() and x.id.endswith('_COLS')
-                    for x in ast.walk(e)) or \
-                any(isinstance(x, ast.Call) and isinstance(x.func, ast.Name) and
-                    x.func.id in ('list', 'tuple', 'str') for x in ast.walk(e))
-        if seq_like(node.left) or seq_like(node.right):
-            return node
-        return ast.BinOp(left=node.right, op=node.op, right=node.left)
-
-
-MODULE_TRANSFORMS = {'transpose': TtoTranspose, 'sqrtform': SqrtForm, 'ifinvert': IfInvert,
-                     'commute': Commute}
+sys.path.insert(0, '/verif')
+from pyins_sa.audit import transforms as _transforms, apply          # noqa: E402
 
 
 def transforms():
-    out = []
-    pk = os.path.join(REPO, 'pyins')
-    for fn in sorted(os.listdir(pk)):
-        if not fn.endswith('.py') or fn == '__init__.py':
-            continue
-        src = open(os.path.join(pk, fn)).read()
-        tree = ast.parse(src)
-        out.append(('unparse:' + fn, fn, None))
-        for k in MODULE_TRANSFORMS:
-            out.append(('%s:%s' % (k, fn), fn, k))
-        for node in ast.walk(tree):
-            if isinstance(node, ast.FunctionDef):
-                loc = locals_of(node)
-                if loc:
-                    out.append(('rename:%s:%s@%d' % (fn, node.name, node.lineno), fn,
-                                (node.name, node.lineno)))
-    return out
-
-
-def apply(tr, dst):
-    name, fn, target = tr
-    p = os.path.join(dst, 'pyins', fn)
-    src = open(p).read()
-    tree = ast.parse(src)
-    if isinstance(target, str):
-        tree = ast.fix_missing_locations(MODULE_TRANSFORMS[target]().visit(tree))
-    elif target is not None:
-        for node in ast.walk(tree):
-            if isinstance(node, ast.FunctionDef) and (node.name, node.lineno) == target:
-                node._root = True
-                Renamer(locals_of(node)).visit(node)
-    open(p, 'w').write(ast.unparse(tree) + '\n')
+    return _transforms(REPO)
 
 
 def run_one(tr):
